@@ -1,6 +1,6 @@
 #!/usr/bin/python3
 """Regenerates /verif/MANIFEST.json from the table below (one entry per claimed property)."""
-import json, os
+import json, os, re
 ROOT = os.path.dirname(os.path.dirname(os.path.abspath(__file__)))
 
 COMMON_NOTE = ("Trusted: Lean 4.33.0 kernel and the standard axioms reported per theorem in the evidence "
@@ -273,14 +273,70 @@ CLAIMED = {
 
 PENDING_REASON = "not claimed in this revision: model and check still being built (see DESIGN.md section 10)"
 
+# ---- session 3: what was added on top of the texts above (appended to `text`); `note_sub` replaces
+# stale sentences of the note; the number of audited theorems is read from statements.lock ----
+EXT = {
+ "C01": dict(add="Added: N-input closed forms (C01_branches_nary: length = longest input vector and slot i taken iff taken in some input; C01_functions_nary: present iff named by some input, executed iff executed in some input) for every order and grouping."),
+ "C02": dict(add="Added: the merge is refined into parsed / lock / mergeEntry / unlock steps with a mutex (C02_mutual_exclusion, C02_writes_are_whole_batches, C02_final_map_is_fold_of_batches: the map written entry by entry equals the fold of add_results over the batches in lock order), fault steps for a worker dying at any point (also idle) and the producer dying, and the composition with the aggregation model C01: every entry of the result map of every fault-free run is observably the entry of a single sequential pass over the listed inputs (C02_report_is_aggregate, _schedule_independent, _without_rejected, _start_when_inputs_agree). Trace validation now uses lock/unlock hook events (overlapping or split lock sections are rejected) and a capacity bound (at most 3N announced-but-unreceived items), with runs that actually fill the queue."),
+ "C03": dict(add="Added (document level): the Cobertura document (packages, classes, methods by the start-line range rule, lines, conditions, totals) and the ActiveData records (CobAde), the coveralls(+) document, the complete covdir document incl. the children map of into_json, files, markdown rows and missed ranges, the html page set, rows for ARBITRARY source bytes (lossy decoding + str::lines) and index rows (Docs), each with decode-after-write theorems and `_false`/`_partial` pairs with closed witnesses for every guard; byte level: quick-xml's writer for the Cobertura dialect (CobBytes: xmlParse (xmlSerialize t) = some t, report bytes decode to the projected results) and serde_json's compact writer (JsonBytes: jsonParse (jsonSerialize j) = some j), both tied BYTE FOR BYTE to the real output and read by expat / Python json as independent readers; the CLI glue of main.rs (Main: output dispatch, to_file_name, sorting, writer parameters) tied as real binary = library(plan(opts)).",
+            note_sub=("Third-party serialisers below tree level are trusted;", "quick-xml's and serde_json's writers are modelled and tied byte for byte for cobertura, covdir, coveralls and ActiveData; Tera (html) and tabled (markdown) stay trusted below the fragment level;"),
+            technique="Lean 4 proofs over document-tree and byte-level writer models (decode-after-write, parse-after-serialise) + byte-for-byte / document-for-document differential ties + independent decoders (expat, Python json, html.parser) on every writer's real output"),
+ "C04": dict(add="After fixes 08517d5 and d06d7c1 the full statement C04_fidelity holds without guard: for every list of well-formed sections (any record order, FNDA before or after FN, DA checksum fields, LF or CRLF, branch parsing on or off) parse (render secs) = ok (secs.map (sf, sem)), with an order-free function semantics; C04_fnda_without_fn_rejected; names: validUtf8 bs -> utf8Lossy bs = bs for the full RFC 3629 grammar (C04_names_preserved). Known finding C04-lcov2-fn-end-line (lcov 2.x FN:<start>,<end>,<name>) is witnessed on every run.",
+            note_sub=("Known finding C04-fnda-before-fn.", "Known finding C04-lcov2-fn-end-line (outside WellFormed).")),
+ "C05": dict(add="Added: C05_second_export_equals_first (printLcov (roundtrip rs) = printLcov rs byte for byte, hence the same summary lines), C05_iterate (any number of rounds), preservation of the writer's domain by a round; the rewrite side: C05_rewrite_idempotent_stmt is FALSE (three closed witnesses = known findings C05-relative-prefix-restripped, C05-source-dir-name-restripped, C05-prefix-behind-dotdot-restripped) and proved under exactly the guards they violate (C05_rewrite_idempotent_partial, _plain_partial, C05_rewrite_twice_partial), tied by applying the real rewrite_paths twice."),
+ "C06": dict(add="Added: report level and byte level - for every tree of shards over lists of file records, writing and parsing the lcov bytes at every inner node succeeds and the final parse is literally the direct aggregation (C06_sharding_reports_bytes), observably equal for every permutation/grouping of the leaves (C06_sharding_reports); the --branch-off variant is the `_false`/`_partial` pair behind known finding C06-jacoco-branches-without-branch-flag."),
+ "C07": dict(add="Added: fault steps workerDies (any point, also idle) and prodDies in the transition system; C07_no_deadlock and C07_runs_are_finite re-proved for it (bound sum(size x + 8) + 6n + 4, no n >= 1 hypothesis); C07_no_death_exit_zero (without a fault step and without a die fate every exit status reached is 0 - the converse of dead-worker-nonzero-exit, without which the report theorems could be vacuous), C07_dead_producer_nonzero_exit, C07_poisoned_nonzero_exit, C07_report_without_rejected. Fault injection now includes idle deaths (one, several, all workers) and producer deaths (before the first, a middle and the last send)."),
+ "C08": dict(add="Added: C08_line_count_single_block_end_to_end (from gcda lists through addGcdas, stop, addLineCount, mergeLines, finalize: a line owned by one block is reported with that block's flow; k+1 runs give (k+1) times) and the repair of a model/code mismatch found by review (a function with several BLOCKS records restarts block.no; generators now produce it)."),
+ "C09": dict(add="Added: C09_json_unknown_keys_irrelevant (keys gcov 13/14 add, at every level and position), key-order independence lifted to toResults, a float counter is accepted iff 0 <= v < 2^64 (after fix 5cfb47a: 2^64 rejected), gcov 8 three-field lcount is a parse error, NodupKeys of branch maps; the `never_panics` theorems are documented as true by construction with a site-by-site reading of the Rust."),
+ "C10": dict(add="Added: an allocation outcome (cb + mb above a cap = the capacity-overflow panic / allocation abort; fidelity under the bound), C10_repeated_method_last_wins and C10_fidelity_overloads (what the code does for overloaded methods - outside the property's quantifier, recorded as an observation), C10_fidelity_lines_and_branches without any method-name guard, C10_missing_attribute_outcomes (which missing attributes reject the report)."),
+ "C11": dict(add="Added: the Java/Kotlin partial-path lookup inside the model (rewritePathsJ with the walk order as a parameter; conservative extension theorem, candidate characterisation, unique candidate / unique suffix, selection-iff and partitions restated, order dependence witnessed; the --ignore/--keep-only partition is FALSE with the lookup: known finding C11-partial-path-ignore-prunes-candidates); after fix 568afd2 the normal form of the reported path holds WITHOUT guard (C11_normal_form, C11_no_backslash, C11_reported_is_final); relative-under-source-dir carries a `_false`/`_partial` pair (known finding C11-backslash-name-abs-rel-differ); the CLI wiring of main.rs (filter option, prefix default, argument positions of rewrite_paths and FileFilter::new) is modelled and tied to the real binary (C11_main_*).",
+            note_sub=("Java/Kotlin partial paths, exclusion markers (C16) and the CLI wiring are outside the model.", "exclusion markers are C16's subject.")),
+ "C12": dict(add="Added: the sharp guard - without source dir and mapping the report has pairwise distinct paths IFF normalizePath after prefix removal is injective on the reported keys (C12_unique_iff_no_source, _unfiltered), which characterises the finding exactly; a second source of duplicates (C12_prefix_collapse_witness, known finding C12-prefix-collapses-distinct-keys) with its guarded theorem; C12_canonical_record_is_merge (the single record IS the C01 merge of all spellings' records); covdir root totals count each file once."),
+ "C13": dict(add="Added: the sums are about the REPORT (the children listed in covdir's JSON are exactly the internal children under the no-collision guard, with the closed witness a + a/b), the printed rate as an audited predicate printedOK (tolerances per format in Lean; every figure the harness accepts is re-judged by the model), rates finite/in range/monotone, line 0 behaviour per writer; defect repaired: the badge truncated an f64 quotient (fix 5a7a2d7) and the harness tolerance that had hidden it is removed."),
+ "C14": dict(add="Added: the gcno/gcda reader is now covered by theorems for ALL byte strings: the byte layer, read_gcno, read_gcda, build, count_on_tree and finalize never crash except by the recorded u64 overflow (C14_gcno_bytes_never_crash) and never diverge (C14_gcno_bytes_terminate, via the Johnson stack invariant of look_for_circuit); a truncated gcda gives an error or exactly the state of a prefix of its complete records (C14_truncated_gcda, _records, _counters); record streams, strings, arcs, line items and (after fix ed627d5) the block table are linear in the input.",
+            note_sub=("Stack depth of the recursive gcno propagation and the exponential cycle search are outside every model (DESIGN section 7 item 12);", "Stack depth of the recursive gcno propagation and the running time of the cycle search are measured, not bounded by a theorem;")),
+ "C15": dict(add="Added: byte-level corollaries (computeBytes = computeRecs whenever the buffers can be read; structure, no-gcda, order and k-copies laws over BYTES), executed iff entry flow > 0 under the explicit shape condition EntryFirst (closed witness that it is needed), a per-function checksum mismatch is an error wherever the bad gcda stands (below the overflow guard), record-level termination."),
+ "C16": dict(add="Added: line splitting inside the model (split at LF, CR stripping, exactly one final LF dropped after fix f854858): C16_only_real_lines (whatever is removed is a line of the source, for every non-empty text), C16_phantom_line, C16_empty_file; the oracle no longer has a don't-care key; the whole filter list is computed from the source text by the model and tied to FileFilter::create."),
+ "C17": dict(add="Added: the path-mapping artifact in the outcome (invariance when at most one distinct map exists; known finding C17-two-path-mappings-first-wins with closed witness), argument classification (.zip suffix test before any file-system access, directory, plain file, the two panics) tied on 147 argument shapes, hidden directories / dot files / ignore files inside directory inputs."),
+ "C18": dict(add="Added: the XML readers are the strict conforming ones (line-end normalisation, control characters rejected; guards printable/textSafe with closed witnesses, agreeing with the expat-tied CobBytes reader), every sink of the HTML templates as a fragment theorem (title, breadcrumb, row link and text, source line: the scan returns exactly the name and the fragment's markup skeleton does not depend on the name) tied byte for byte to the rendered pages, whole-document theorems for Cobertura bytes and JSON bytes (C18_cobbytes_*, C18_json_*: number of elements/attributes/objects/keys independent of every name)."),
+ "C19": dict(add="Added: EVERY write/delete destination of a run is modelled (Confine.dests: html pages, directory and global indexes, badges, coverage.json, resources, worker directories, gcov outputs and their removal, the merged profile and its removal, report files, the log) and proved confined to the temp dir, the output location or the log file for all inputs (C19_all_dests_confined), the html part composed with C11's normal-form theorem (full strength after fix 568afd2, which repaired the escape found here), C19_inputs_untouched, C19_removals_inside_worker_dirs; tied by comparing the set of created files of html and -o runs with dests, and by snapshots of LLVM-path runs with profiles as plain arguments.",
+            technique="Lean 4 proofs over path-component and destination models (all write/delete sites) + sandbox file-system snapshots and created-file comparison around CLI runs"),
+ "C20": dict(add="Added: the worker loop body of consumer (dispatch table, gcov working-directory protocol with the SingleFile/MultipleFiles latch, rename_single_files), the gcov interface (argv, version parsing, output extension switch at 9.1.0) and find_binaries (entries file/dir/symlink, hidden and ignored entries) are modelled with the tools as parameters: isolation and every-assignment at full strength under the gcov tool contract (after fix 2cb069b), directory theorems per mode, no-panic `_partial` with a closed witness per guard, C20_findbin_deterministic (after fix 647649e), C20_findbin_every_executable `_false`/`_partial` (known finding C20-findbin-hidden-or-ignored-skipped); tied by running the real consumer in child processes with a scripted gcov and the real find_binaries on trees with symlinks.",
+            note_sub=("find_binaries' directory walk (ignore crate, infer::is_app) is exercised, not modelled.", "the ignore crate's rule language and infer::is_app are parameters of the find_binaries model.")),
+}
+
+# stale sentences of the session-2 texts, replaced when the manifest is generated
+TEXT_SUB = {
+ "C01": [("Proof: 18 theorems about", "Proof: theorems about")],
+ "C04": [(" Full statement parse(render ast)=sem ast is proved per layer as described in Props/C04.lean; the remaining record kinds are covered by the spec oracle.", "")],
+ "C07": [("every run has at most 3*items+6n+4 steps", "every run is finite (a bound linear in the inputs)")],
+ "C11": [(" Normal form of the relative path is refuted by a closed witness and proved under its guard (known finding C11-mapping-backslash).", "")],
+ "C14": [("Not covered by a theorem: the gcno/gcda binary reader (tied by C15/C08 at CFG level, measured here) and the time/memory of the Rust code, which are MEASURED:",
+          "Time and memory of the Rust code are MEASURED:")],
+}
+
 def main():
+    global LOCK
+    LOCK = json.load(open(os.path.join(ROOT, "statements.lock")))
     ids = [json.loads(l)["id"] for l in open(os.path.join(ROOT, "properties.jsonl"))]
     hooks = json.load(open(os.path.join(ROOT, "hooks.json")))
     checks = []
     for pid in ids:
         if pid not in CLAIMED:
             continue
-        c = CLAIMED[pid]
+        c = dict(CLAIMED[pid])
+        e = EXT.get(pid, {})
+        n = sum(1 for k in LOCK if k.startswith(f"Grcov.Props.{pid}."))
+        text = re.sub(r"Proof \(\d+ theorems\)", "Proof", c["text"])
+        for a, b in TEXT_SUB.get(pid, []):
+            assert a in text, (pid, a)
+            text = text.replace(a, b)
+        c["text"] = f"{n} audited theorems. " + text + (" " + e["add"] if e.get("add") else "")
+        if e.get("note_sub"):
+            assert e["note_sub"][0] in c["note"], pid
+            c["note"] = c["note"].replace(e["note_sub"][0], e["note_sub"][1])
+        if e.get("technique"):
+            c["technique"] = e["technique"]
         checks.append({
             "property_id": pid,
             "quick_cmd": f"./check {pid} --tier quick",
